@@ -75,6 +75,7 @@ use boa_ast::{
     pattern::Pattern,
     property::MethodDefinitionKind,
     scope::{BindingLocator, BindingLocatorError, FunctionScopes, IdentifierReference, Scope},
+    visitor::{VisitWith, Visitor},
 };
 use boa_gc::Gc;
 use boa_interner::{Interner, Sym};
@@ -110,6 +111,40 @@ impl ToJsString for Sym {
 impl ToJsString for Identifier {
     fn to_js_string(&self, interner: &Interner) -> JsString {
         self.sym().to_js_string(interner)
+    }
+}
+
+/// Visitor that breaks when an expression contains an assignment that may target the binding
+/// with the given name (an assignment or update of that identifier, or any pattern assignment).
+struct AssignsToIdentifier(Sym);
+
+impl<'ast> Visitor<'ast> for AssignsToIdentifier {
+    type BreakTy = ();
+
+    fn visit_assign(
+        &mut self,
+        node: &'ast boa_ast::expression::operator::Assign,
+    ) -> std::ops::ControlFlow<()> {
+        match node.lhs() {
+            AssignTarget::Identifier(ident) if ident.sym() != self.0 => {}
+            AssignTarget::Access(_) => {}
+            AssignTarget::Identifier(_) | AssignTarget::Pattern(_) => {
+                return std::ops::ControlFlow::Break(());
+            }
+        }
+        node.visit_with(self)
+    }
+
+    fn visit_update(
+        &mut self,
+        node: &'ast boa_ast::expression::operator::Update,
+    ) -> std::ops::ControlFlow<()> {
+        if let UpdateTarget::Identifier(ident) = node.target()
+            && ident.sym() == self.0
+        {
+            return std::ops::ControlFlow::Break(());
+        }
+        node.visit_with(self)
     }
 }
 
@@ -1360,7 +1395,7 @@ impl<'ctx> ByteCompiler<'ctx> {
                 });
             }
             None => {
-                self.compile_expr_operand(binary.lhs(), |compiler, lhs| {
+                self.compile_lhs_operand(binary.lhs(), binary.rhs(), |compiler, lhs| {
                     compiler.compile_expr_operand(binary.rhs(), |compiler, rhs| {
                         label_index = compiler.next_opcode_location();
                         emit_fn(&mut compiler.bytecode, Self::DUMMY_ADDRESS, lhs, rhs);
@@ -1834,6 +1869,32 @@ impl<'ctx> ByteCompiler<'ctx> {
         self.register_allocator.dealloc(reg);
     }
 
+    /// Compile the left operand of a binary operation whose right operand is `rhs`.
+    ///
+    /// This is [`compile_expr_operand`](Self::compile_expr_operand), except that a local variable
+    /// is copied into a temporary register when evaluating `rhs` may assign to it: the left
+    /// operand must keep the value it had before the right operand was evaluated.
+    pub(crate) fn compile_lhs_operand(
+        &mut self,
+        lhs: &Expression,
+        rhs: &Expression,
+        inner_fn: impl FnOnce(&mut Self, RegisterOperand),
+    ) {
+        if let Expression::Identifier(name) = lhs
+            && AssignsToIdentifier(name.sym())
+                .visit_expression(rhs)
+                .is_break()
+        {
+            let reg = self.register_allocator.alloc();
+            self.compile_expr(lhs, &reg);
+            let op = reg.variable();
+            inner_fn(self, op);
+            self.register_allocator.dealloc(reg);
+            return;
+        }
+        self.compile_expr_operand(lhs, inner_fn);
+    }
+
     /// Compile a property access expression, prepending `this` to the property value in the stack.
     ///
     /// This compiles the access in a way that the state of the stack after executing the property
@@ -2280,7 +2341,9 @@ impl<'ctx> ByteCompiler<'ctx> {
                                 // Cache non-local const bindings in a persistent register
                                 // so subsequent reads avoid GetName environment lookups.
                                 #[cfg(boa_verif)]
-                                let cache = !boa_ast::scope::verif::conservative(boa_ast::scope::verif::CONST_CACHE);
+                                let cache = !boa_ast::scope::verif::conservative(
+                                    boa_ast::scope::verif::CONST_CACHE,
+                                );
                                 #[cfg(not(boa_verif))]
                                 let cache = true;
                                 if cache {
